@@ -23,9 +23,10 @@ pub enum Rec {
     LimitDec { mi: usize, limit: u64 },
     /// the pending action of machine `mi` was withdrawn on a reached limit.
     Withdrawn { mi: usize },
-    /// the counters of machine `mi` were updated.
+    /// the counters of machine `mi` were updated on entering `state`.
     Counters {
         mi: usize,
+        state: usize,
         old: (u64, u64),
         new: (u64, u64),
     },
